@@ -131,8 +131,10 @@ def relational(W, cfg):
             'C11:%s-invisible' % variant, 'likelihood evaluated on the same '
             'points in the same order')
         # determinism taint
-        W.require(W.unseeded == 0, 'C11:no-unseeded-generator',
-                  '%d generators created without a seed' % W.unseeded)
+        W.require(W.unseeded_draws == 0,
+                  'C11:no-draw-from-unseeded-generator',
+                  '%d draws from generators created without a seed' %
+                  W.unseeded_draws)
         for b in StubNautilusBound.computed:
             W.require(b.rng is SB.rng or b.rng is SA.rng,
                       'C11:bounds-share-the-sampler-generator', '')
